@@ -62,8 +62,9 @@ Definition name_ok (name : option (list byte)) (len : option nat) : Prop :=
 
 Definition op_ok (o : op) : Prop :=
   match o with
-  | OSet _ name len => name_ok name len
-  | OCompare _ name nlen => name_ok name nlen
+  | OSet _ name len | OXSet _ name len => name_ok name len
+  | OCompare _ name nlen | OXEqual _ name nlen => name_ok name nlen
+  | OXNew _ total => 16 <= total      (* the storage holds at least sizeof(identifier) *)
   | _ => True
   end.
 
@@ -97,6 +98,41 @@ Definition sstep (s : list aval) (o : op) : list aval * out :=
     end
   | ONew len => (s, if lim16 <? len then ORefused else ODone)
   | ONode _ => (s, ODone)
+  (* the C++ class: set_name is set, equal is "compare = 0", operator= is copy *)
+  | OXSet i name len =>
+    match nth_error s i with
+    | Some v => let '(v', ok) := sset v name len in
+                (set_nth s i v', if ok then ODone else ORefused)
+    | None => (s, ORefused)
+    end
+  | OXEqual i name nlen =>
+    match nth_error s i with
+    | Some v => (s, OEq (scompare v name nlen))
+    | None => (s, ORefused)
+    end
+  (* name(): the stored bytes of a text name, nothing for any other content *)
+  | OXName i =>
+    match nth_error s i with
+    | Some v => (s, OName (if N.eqb (fst v) CS_UTF8 then Some (snd v) else None))
+    | None => (s, ORefused)
+    end
+  | OXAssign i j =>
+    match nth_error s i, nth_error s j with
+    | Some _, Some v => (set_nth s i v, ODone)
+    | _, _ => (s, ORefused)
+    end
+  (* a copy-constructed object holds the name of its source *)
+  | OXCtor i j =>
+    match nth_error s i, nth_error s j with
+    | Some _, Some v => if i =? j then (s, ORefused) else (set_nth s i v, ODone)
+    | _, _ => (s, ORefused)
+    end
+  (* a constructed object holds no name *)
+  | OXNew i _ =>
+    match nth_error s i with
+    | Some _ => (set_nth s i unset, ODone)
+    | None => (s, ORefused)
+    end
   end.
 
 Definition sobs (s : list aval) : list slot_obs :=
